@@ -315,14 +315,38 @@ fn top_level_proofs_ok(
         && proof_ok(rollup_ids_proof, &sha2::Sha256::digest(ids_root), data_hash)
 }
 
+/// A service that refuses untrusted bytes logs the refusal: rendering the error (Display, Debug, and the whole source chain)
+/// is part of handling the input and must not panic either.
+fn render<E: std::error::Error>(e: &E) -> String {
+    let mut out = format!("{e} | {e:?}");
+    let mut src = e.source();
+    while let Some(x) = src {
+        out.push_str(&format!(" <- {x}"));
+        src = x.source();
+    }
+    ERRORS_RENDERED.fetch_add(1, std::sync::atomic::Ordering::Relaxed);
+    out
+}
+
+static ERRORS_RENDERED: std::sync::atomic::AtomicU64 = std::sync::atomic::AtomicU64::new(0);
+
 /// Runs one entry point on `bytes`: "err" | "ok" | "ok_but_<inconsistency>".
 fn decode(entry: &str, bytes: &[u8]) -> String {
     match entry {
         "transaction" => {
             let Ok(raw) = rawtx::Transaction::decode(bytes) else { return "err".into() };
             match Transaction::try_from_raw(raw) {
-                Err(_) => "err".into(),
+                Err(e) => {
+                    let _ = render(&e);
+                    "err".into()
+                }
                 Ok(tx) => {
+                    // "re-encodes to an equivalent message": the message obtained from the accepted value must be the message that
+                    // was received (compared as decoded protobuf messages, so field order / unknown fields on the wire do not matter)
+                    let received = rawtx::Transaction::decode(bytes).expect("decoded above");
+                    if tx.to_raw() != received {
+                        return "ok_but_reencoding_differs_from_received_message".into();
+                    }
                     let again = tx.to_raw().encode_to_vec();
                     match rawtx::Transaction::decode(&*again).ok().and_then(|r| Transaction::try_from_raw(r).ok()) {
                         Some(tx2) if tx2.to_raw().encode_to_vec() == again => "ok".into(),
@@ -346,7 +370,10 @@ fn decode(entry: &str, bytes: &[u8]) -> String {
         "sequencer_block" => {
             let Ok(raw) = rawblock::SequencerBlock::decode(bytes) else { return "err".into() };
             match SequencerBlock::try_from_raw(raw) {
-                Err(_) => "err".into(),
+                Err(e) => {
+                    let _ = render(&e);
+                    "err".into()
+                }
                 Ok(b) => {
                     let again = b.clone().into_raw().encode_to_vec();
                     match rawblock::SequencerBlock::decode(&*again).ok().and_then(|r| SequencerBlock::try_from_raw(r).ok()) {
@@ -374,7 +401,10 @@ fn decode(entry: &str, bytes: &[u8]) -> String {
         "filtered_block" => {
             let Ok(raw) = rawblock::FilteredSequencerBlock::decode(bytes) else { return "err".into() };
             match FilteredSequencerBlock::try_from_raw(raw) {
-                Err(_) => "err".into(),
+                Err(e) => {
+                    let _ = render(&e);
+                    "err".into()
+                }
                 Ok(b) => {
                     let again = b.clone().into_raw().encode_to_vec();
                     match rawblock::FilteredSequencerBlock::decode(&*again).ok().and_then(|r| FilteredSequencerBlock::try_from_raw(r).ok()) {
@@ -396,7 +426,10 @@ fn decode(entry: &str, bytes: &[u8]) -> String {
         "submitted_metadata" => {
             let Ok(raw) = rawblock::SubmittedMetadata::decode(bytes) else { return "err".into() };
             match SubmittedMetadata::try_from_raw(raw) {
-                Err(_) => "err".into(),
+                Err(e) => {
+                    let _ = render(&e);
+                    "err".into()
+                }
                 Ok(m) => {
                     let again = m.clone().into_raw().encode_to_vec();
                     match rawblock::SubmittedMetadata::decode(&*again).ok().and_then(|r| SubmittedMetadata::try_from_raw(r).ok()) {
@@ -410,7 +443,10 @@ fn decode(entry: &str, bytes: &[u8]) -> String {
         "submitted_rollup_data" => {
             let Ok(raw) = rawblock::SubmittedRollupData::decode(bytes) else { return "err".into() };
             match SubmittedRollupData::try_from_raw(raw) {
-                Err(_) => "err".into(),
+                Err(e) => {
+                    let _ = render(&e);
+                    "err".into()
+                }
                 Ok(r) => {
                     // conductor's audit must be computable on whatever was accepted
                     let _ = r.proof().audit().with_root([9; 32]).with_leaf_builder().write(r.rollup_id().as_bytes())
@@ -427,12 +463,12 @@ fn decode(entry: &str, bytes: &[u8]) -> String {
         "metadata_blob" => {
             let Ok(raw) = astria_core::brotli::decompress_bytes(bytes) else { return "err".into() };
             let Ok(list) = rawblock::SubmittedMetadataList::decode(&*raw) else { return "err".into() };
-            if list.entries.into_iter().all(|e| SubmittedMetadata::try_from_raw(e).is_ok()) { "ok".into() } else { "err".into() }
+            if list.entries.into_iter().all(|e| SubmittedMetadata::try_from_raw(e).map_err(|e| render(&e)).is_ok()) { "ok".into() } else { "err".into() }
         }
         "rollup_blob" => {
             let Ok(raw) = astria_core::brotli::decompress_bytes(bytes) else { return "err".into() };
             let Ok(list) = rawblock::SubmittedRollupDataList::decode(&*raw) else { return "err".into() };
-            if list.entries.into_iter().all(|e| SubmittedRollupData::try_from_raw(e).is_ok()) { "ok".into() } else { "err".into() }
+            if list.entries.into_iter().all(|e| SubmittedRollupData::try_from_raw(e).map_err(|e| render(&e)).is_ok()) { "ok".into() } else { "err".into() }
         }
         _ => "err".into(),
     }
@@ -482,6 +518,24 @@ fn main() {
                     writeln!(out, "{}", serde_json::json!({"kind": "decode_case", "entry": entry, "operator": op, "outcome": outcome, "input": hexs(&bytes)})).unwrap();
                 }
             }
+            // the signature covers only the body bytes: everything else in the envelope can be rewritten by a third party
+            if *entry == "transaction" {
+                if let Ok(raw) = rawtx::Transaction::decode(&**valid) {
+                    let canonical = raw.body.as_ref().map(|b| b.type_url.clone()).unwrap_or_default();
+                    for alt in [String::new(), format!("type.googleapis.com{canonical}"), canonical.replace("TransactionBody", "Transaction"), format!("{canonical}x"), canonical.to_uppercase(), canonical.trim_start_matches('/').to_string()] {
+                        let mut r2 = raw.clone();
+                        if let Some(b) = r2.body.as_mut() {
+                            b.type_url = alt;
+                        }
+                        let bytes = r2.encode_to_vec();
+                        let outcome = guarded(|| decode(entry, &bytes)).unwrap_or_else(|p| format!("panic:{p}"));
+                        *counts.entry((entry.to_string(), "type_url_rewritten".into(), outcome.split(':').next().unwrap_or("").to_string())).or_default() += 1;
+                        if outcome != "ok" && outcome != "err" {
+                            writeln!(out, "{}", serde_json::json!({"kind": "decode_case", "entry": entry, "operator": "type_url_rewritten", "outcome": outcome, "input": hexs(&bytes)})).unwrap();
+                        }
+                    }
+                }
+            }
             // for blobs: mutate the uncompressed list and compress it again (structure-aware through the compression)
             if is_blob {
                 if let Ok(rawlist) = astria_core::brotli::decompress_bytes(valid) {
@@ -501,7 +555,7 @@ fn main() {
     for ((entry, op, outcome), n) in counts {
         writeln!(out, "{}", serde_json::json!({"kind": "decode_summary", "entry": entry, "operator": op, "outcome": outcome, "n": n})).unwrap();
     }
-    writeln!(out, "{}", serde_json::json!({"kind": "proof_reverification", "proofs_reverified": PROOFS_REVERIFIED.load(std::sync::atomic::Ordering::Relaxed),
+    writeln!(out, "{}", serde_json::json!({"kind": "proof_reverification", "errors_rendered": ERRORS_RENDERED.load(std::sync::atomic::Ordering::Relaxed), "proofs_reverified": PROOFS_REVERIFIED.load(std::sync::atomic::Ordering::Relaxed),
         "library_accepts_where_rfc9162_rejects": LIB_ACCEPTS_RFC_REJECTS.load(std::sync::atomic::Ordering::Relaxed)})).unwrap();
     writeln!(out, "{}", serde_json::json!({"kind": "end"})).unwrap();
     out.flush().unwrap();
